@@ -532,7 +532,11 @@ func runServerHistory(t *testing.T, c *caseWriter, tags string, kind string, see
 		for range s.rounds {
 			exp = append(exp, 0)
 		}
-		c.addMulti(tags, kind, true, s.encode(macs), [][]interface{}{{exp}})
+		outs := [][]interface{}{{exp}}
+		for i := 1; i < len(strings.Split(tags, "+")); i++ {
+			outs = append(outs, []interface{}{L{1}})
+		}
+		c.addMulti(tags, kind, true, s.encode(macs), outs)
 	})
 }
 
@@ -543,12 +547,20 @@ func TestServerHistories(t *testing.T) {
 	if b, err := os.ReadFile(corpusDir() + "/SRV/seeds.txt"); err == nil {
 		for _, f := range strings.Fields(string(b)) {
 			if v, err := strconv.ParseInt(f, 10, 64); err == nil {
-				runServerHistory(t, c, "101", "corpus", v)
+				runServerHistory(t, c, serverTags(), "corpus", v)
 			}
 		}
 	}
 	n := scale(300, 8000)
 	for i := 0; i < n; i++ {
-		runServerHistory(t, c, "101", "sequential", seed()*1000003+int64(i))
+		runServerHistory(t, c, serverTags(), "sequential", seed()*1000003+int64(i))
 	}
+}
+
+// serverTags: the acceptor (101) plus the monitors asked for by the check (VERIF_MONITORS="201+206"), default all.
+func serverTags() string {
+	if m := os.Getenv("VERIF_MONITORS"); m != "" {
+		return "101+" + m
+	}
+	return "101+201+202+203+204+205+206+207+208+210"
 }
